@@ -7,6 +7,7 @@ K_a   == <<97>>
 K_ab  == <<97, 98>>
 K_ab0 == <<97, 98, 0>>
 K_ac  == <<97, 99>>
+K_aa  == <<97, 97>>
 K_b   == <<98>>
 K_80  == <<128>>
 K_0   == <<0>>
@@ -17,6 +18,11 @@ Keys4 == {K_e, K_a, K_ab, K_80}
 Keys5 == {K_e, K_a, K_ab, K_ac, K_80}
 Keys6 == {K_e, K_0, K_a, K_ab, K_ac, K_80}
 
+\* nested prefixes: keys under "a" before, inside and after the range of "ab"
+KeysN == {K_a, K_aa, K_ab, K_ac, K_80}
+QKN == KeysN \cup {K_b}
+PfxN == {<<K_ab, K_a>>, <<K_a, K_ab>>, <<K_ab, K_e>>, <<K_ab, K_ab>>, <<K_aa, K_a, K_80>>}
+OpsPfx == {"pfx"}
 QK3 == Keys3 \cup {K_b}
 QK4 == Keys4 \cup {K_ab0, K_b}
 QK5 == Keys5 \cup {K_ab0, K_b, K_0}
